@@ -79,21 +79,31 @@ def rule_rule_keyed(ctx, rep):
         return it is not None and unparse(it) == P_RULES
 
     sources = []  # (node, ok)
-    for n in walk_no_nested(fn.node):
-        if isinstance(n, ast.Call) and isinstance(n.func, ast.Attribute) and n.func.attr in ("extend", "append", "insert") and unparse(n.func.value) == FV:
-            sources.append((n, n.func.attr == "extend" and len(n.args) == 1 and lookup_ok(n.args[0], None)))
-        elif isinstance(n, ast.AugAssign) and unparse(n.target) == FV:
-            sources.append((n, isinstance(n.op, ast.Add) and lookup_ok(n.value, None)))
-        elif isinstance(n, (ast.Assign, ast.AnnAssign)) and n.value is not None and any(unparse(t) == FV for t in (n.targets if isinstance(n, ast.Assign) else [n.target])):
-            v = n.value
-            if isinstance(v, ast.Constant) and v.value is None:
-                continue
-            if isinstance(v, (ast.List, ast.Tuple)) and not v.elts:
-                continue
-            if isinstance(v, ast.ListComp) and len(v.generators) == 2 and isinstance(v.elt, ast.Name) and isinstance(v.generators[1].target, ast.Name) and v.generators[1].target.id == v.elt.id and not any(g.ifs for g in v.generators):
-                sources.append((n, lookup_ok(v.generators[1].iter, v)))
-            else:
-                sources.append((n, False))
+
+    def collect(name: str, seen: set):
+        if name in seen:
+            return
+        seen.add(name)
+        for n in walk_no_nested(fn.node):
+            if isinstance(n, ast.Call) and isinstance(n.func, ast.Attribute) and n.func.attr in ("extend", "append", "insert") and unparse(n.func.value) == name:
+                sources.append((n, n.func.attr == "extend" and len(n.args) == 1 and lookup_ok(n.args[0], None)))
+            elif isinstance(n, ast.AugAssign) and unparse(n.target) == name:
+                sources.append((n, isinstance(n.op, ast.Add) and lookup_ok(n.value, None)))
+            elif isinstance(n, (ast.Assign, ast.AnnAssign)) and n.value is not None and any(unparse(t) == name for t in (n.targets if isinstance(n, ast.Assign) else [n.target])):
+                v = n.value
+                if isinstance(v, ast.Constant) and v.value is None:
+                    continue
+                if isinstance(v, (ast.List, ast.Tuple)) and not v.elts:
+                    continue
+                if isinstance(v, ast.Name) and v.id not in pp:
+                    collect(v.id, seen)  # alias of another local list
+                    continue
+                if isinstance(v, ast.ListComp) and len(v.generators) == 2 and isinstance(v.elt, ast.Name) and isinstance(v.generators[1].target, ast.Name) and v.generators[1].target.id == v.elt.id and not any(g.ifs for g in v.generators):
+                    sources.append((n, lookup_ok(v.generators[1].iter, v)))
+                else:
+                    sources.append((n, False))
+
+    collect(FV, set())
     exts = [n for n, _ in sources]
     ok = bool(sources) and all(g for _, g in sources)
     rep.check("R-RULE-KEYED", fn.qname, fn.loc(exts[0]) if exts else fn.loc(), ok, "findings-source",
